@@ -391,9 +391,8 @@ Definition makeMove (p : position) (m : move) : position * undoInfo :=
   (mmEpilogue p m wtm, ui).
 
 (** Position::unMakeMove, split the same way *)
-(** side, pieces on from/to, castle mask, e.p. square, clock, promotion, move counter;
-    returns the position and the piece that moved (a pawn for promotions) *)
-Definition umRestoreBlock (p : position) (m : move) (ui : undoInfo) : position * piece :=
+(** side, pieces on from/to, castle mask, e.p. square, clock *)
+Definition umRestore1 (p : position) (m : move) (ui : undoInfo) : position :=
   let p := set_hashKey p (N.lxor (hashKey p) (zk_white zk)) in
   let p := set_whiteMove p (negb (whiteMove p)) in
   let pc := getPiece p (mto m) in
@@ -401,7 +400,13 @@ Definition umRestoreBlock (p : position) (m : move) (ui : undoInfo) : position *
   let p := setPiece p (mfrom m) pc in
   let p := setCastleMask p (u_castleMask ui) in
   let p := setEpSquare p (u_epSquare ui) in
-  let p := set_halfMoveClock p (u_halfMoveClock ui) in
+  set_halfMoveClock p (u_halfMoveClock ui).
+
+(** promotion, move counter; returns the position and the piece that moved (a pawn for
+    promotions).  [pc] is read before the board is touched: int p = getPiece(move.to()) *)
+Definition umRestoreBlock (p : position) (m : move) (ui : undoInfo) : position * piece :=
+  let pc := getPiece p (mto m) in
+  let p := umRestore1 p m ui in
   let wtm := whiteMove p in
   let '(p, pc) :=
     if negb (mpromote m =? EMPTY) then
